@@ -26,7 +26,7 @@ RULE = ("case = one point of the lattice functional{rootfinder,equilibrium,minim
         "zero with requires_grad} x cotangent {dense, unit, zero}; inside a case: first-order gradients of <cot, y> "
         "and second-order gradients (gradient of a fixed contraction of the first-order gradients) w.r.t. every "
         "differentiable tensor, compared with the reference; distinct = distinct rounded observation")
-RULE_ADDED = 'Added later: objects listing a NON-differentiable tensor before / after the differentiable ones (EditableModule and nn.Module with a frozen parameter), forward-mode product at an exactly zero differentiable cotangent, 24-unknown systems for the iterative backward solvers. Round 4: placement explicit_view (matrix leaf and its transposed view as two explicit parameters). Rounds 5-6: preconditioner options of the backward solver (bicgstab precond_l / precond_r / both, cg precond); the object is given other tensors between the forward call and the backward pass.'
+RULE_ADDED = 'Added later: objects listing a NON-differentiable tensor before / after the differentiable ones (EditableModule and nn.Module with a frozen parameter), forward-mode product at an exactly zero differentiable cotangent, 24-unknown systems for the iterative backward solvers. Round 4: placement explicit_view (matrix leaf and its transposed view as two explicit parameters). Rounds 5-6: preconditioner options of the backward solver (bicgstab precond_l / precond_r / both, cg precond); the object is given other tensors between the forward call and the backward pass; only the initial guess requires grad.'
 ASSUMPTIONS = [
     "reference = two Newton steps unrolled in plain torch from the detached returned point on the shifted residual "
     "f(y, theta) - f(y_ret, theta0) (so that the returned point is an exact root and the reference is the IFT formula "
@@ -148,6 +148,16 @@ def cases(tier, seed):
                         out.append({"functional": functional, "method": method, "family": fam, "dtype": "float64",
                                     "n": n, "shape": kind, "bck_method": bck, "placement": placement,
                                     "guess": "zero", "cot": "dense", "plane": 0, "seed": 0})
+    # only the initial guess requires grad
+    for functional in ("rootfinder", "equilibrium", "minimize"):
+        fam = "lcosh" if functional == "minimize" else "tanh06"
+        for method in ("newton", "broyden1"):
+            for bck in ("exactsolve", "bicgstab", "default"):
+                for (n, kind) in ((2, "2n"), (8, "n")):
+                    for placement in ("explicit", "editable"):
+                        out.append({"functional": functional, "method": method, "family": fam, "dtype": "float64",
+                                    "n": n, "shape": kind, "bck_method": bck, "placement": placement,
+                                    "guess": "zero_rg", "cot": "dense", "plane": 0, "seed": 0, "only_y0": 1})
     # preconditioners in the backward options
     for functional in ("rootfinder", "equilibrium", "minimize"):
         fam = "lcosh" if functional == "minimize" else "tanh06"
@@ -582,7 +592,12 @@ def run_case(cfg):
                    seed=cfg["seed"])
     N = int(math.prod(prob.shape))
     leaves = [t.detach().clone().requires_grad_() for t in prob.tensors]
+    if cfg.get("only_y0"):
+        # nothing but the initial guess requires grad (its gradient is zero / absent; the call must not fail)
+        leaves = [t.detach().clone() for t in prob.tensors]
     fcn, params, diff, pure = _scenario(cfg, prob, leaves)
+    if cfg.get("only_y0"):
+        diff = []
     names = [nm for nm, _ in diff]
     wrt = [t for _, t in diff]
     zero_names = {"unused"}
@@ -650,6 +665,13 @@ def run_case(cfg):
         return {"viol": viol, "obs": {"status": "bck-exception"}, "status": "exception"}
     g1, g2 = og.value
     bck_warned = og.warned
+    if cfg.get("only_y0"):
+        # nothing to compare: the solution does not depend on the initial guess; its gradient is zero or absent
+        bad = [k for k, g in enumerate(list(g1) + list(g2 or [])) if g is not None and float(g.abs().max()) != 0.0]
+        if bad:
+            viol.append(V("unused-grad-nonzero:y0", {"entries": bad}))
+        return {"viol": viol, "obs": {"status": "only-y0", "none": [g is None for g in g1]},
+                "status": "violation" if viol else "ok"}
 
     # ---- references (plain torch; independent leaves)
     rl = [t.detach().clone().requires_grad_() for t in prob.tensors]
